@@ -24,7 +24,7 @@ def configs(tier):
         return [("native", "", "plain"), ("portable", "", "plain")] + [("native", "", "plain", {"HX_ALIGN": str(k)}) for k in (1, 4, 7)] + \
                [("portable", "", "plain", {"HX_ALIGN": "3"})]
     return [(v, "", "plain") for v in vcore.VARIANTS] + [("native", vcore.ALL_OFF, "plain"), ("native", "", "asan")] + \
-           [(v, "", "plain", {"HX_ALIGN": str(k)}) for v in ("native", "portable") for k in range(1, 16)] + [("native", "", "asan", {"HX_ALIGN": "5"})]
+           [("native", "", "plain", {"HX_ALIGN": str(k)}) for k in range(1, 16)] + [("portable", "", "plain", {"HX_ALIGN": str(k)}) for k in (1, 3, 7)] + [("native", "", "asan", {"HX_ALIGN": "5"})]
 
 
 def rb(rng, n):
